@@ -143,9 +143,15 @@ func WrapPNG(tiff []byte, rng *rand.Rand, lvl int) []byte {
 		out = append(out, pngChunk("tEXt", append([]byte("Comment\x00"), noSig(randBytes(rng, rng.Intn(300)))...))...)
 		out = append(out, pngChunk("pHYs", []byte{0, 0, 0x0b, 0x13, 0, 0, 0x0b, 0x13, 1})...)
 	}
-	out = append(out, pngChunk("eXIf", tiff)...)
+	if lvl < 2 {
+		out = append(out, pngChunk("eXIf", tiff)...)
+	}
 	if lvl >= 1 {
 		out = append(out, pngChunk("IDAT", noSig(randBytes(rng, 40+rng.Intn(100))))...)
+	}
+	if lvl >= 2 { // the eXIf chunk may stand anywhere between IHDR and IEND, also behind the image data
+		out = append(out, pngChunk("IDAT", noSig(randBytes(rng, 20+rng.Intn(60))))...)
+		out = append(out, pngChunk("eXIf", tiff)...)
 	}
 	out = append(out, pngChunk("IEND", nil)...)
 	return out
